@@ -630,18 +630,30 @@ class Program:
         self.edge_kind = kinds
         return edges
 
-    def _callback_edges(self, fn, t, add):
-        """foreign / unresolved call: it may re-enter any foreign-trait impl method of any
-        crate-local ADT occurring in the argument types, and any closure passed."""
+    def callback_targets(self, t):
+        """foreign / unresolved call: the crate-local functions it may re-enter - any closure passed, and any foreign-trait
+        impl method of a crate-local ADT occurring in the argument types.  Code of the standard library can only name the
+        standard library's traits: it never re-enters through an impl of a third-party trait (serde's)."""
+        STD = ("core::", "alloc::", "std::")
+        callee = t.get("callee", "")
+        owner = (t.get("trait") or "") if t.get("st") == "U" else callee
+        std_callee = owner.startswith(STD) or (callee.startswith("<") and (t.get("trait") or "").startswith(STD))
+        out = []
         for a in t.get("arg_adts", []):
             if a in self.fns:  # closure type
-                add(fn.id, a, "callback")
+                out.append(a)
                 continue
             for im in self.adt_impls.get(a, []):
                 if im["trait"] in self.traits:
                     continue  # crate-local trait: foreign code cannot name it
-                for m, path in im["methods"].items():
-                    add(fn.id, path, "callback")
+                if std_callee and im["trait"] and not im["trait"].startswith(STD):
+                    continue
+                out.extend(im["methods"].values())
+        return out
+
+    def _callback_edges(self, fn, t, add):
+        for tgt in self.callback_targets(t):
+            add(fn.id, tgt, "callback")
 
     def reachable_fns(self, roots, edge_filter=None):
         cg = self.callgraph
